@@ -20,20 +20,21 @@ type anchorSpec struct {
 	arg   string
 	ord   int
 	after bool
+	sort  string // optional filter on the sort of $val (send / recv anchors): V, Slice, Int, Bool, Str
 }
 
-var anchorRe = regexp.MustCompile(`^([a-z][a-z-]*)(?:\(([^)]*)\))?(?:#(\d+))?(?:\.(before|after))?$`)
+var anchorRe = regexp.MustCompile(`^([a-z][a-z-]*)(?:\(([^)]*)\))?(?::(V|Slice|Int|Bool|Str))?(?:#(\d+))?(?:\.(before|after))?$`)
 
 func parseAnchor(s string) (*anchorSpec, error) {
 	m := anchorRe.FindStringSubmatch(s)
 	if m == nil {
 		return nil, fmt.Errorf("bad anchor %q", s)
 	}
-	a := &anchorSpec{kind: m[1], arg: m[2]}
-	if m[3] != "" {
-		a.ord, _ = strconv.Atoi(m[3])
+	a := &anchorSpec{kind: m[1], arg: m[2], sort: m[3]}
+	if m[4] != "" {
+		a.ord, _ = strconv.Atoi(m[4])
 	}
-	a.after = m[4] == "after"
+	a.after = m[5] == "after"
 	if a.kind == "recv" {
 		a.after = true
 	}
@@ -55,6 +56,13 @@ func (fc *fnCtx) runAnchors(st *state, kind string, match func(arg string) bool,
 		}
 		if a.kind != kind || a.after != after || !match(a.arg) || (a.ord != 0 && a.ord != ord) {
 			continue
+		}
+		if a.sort != "" {
+			v, has := bind["$val"]
+			if !has || !(v.S == a.sort || (a.sort == "Slice" && strings.HasPrefix(v.S, "(Slice "))) {
+				fc.anchorsSeen[c]++ // the anchor exists in the code, this site carries another sort
+				continue
+			}
 		}
 		fc.anchorsHit[c]++
 		ev := &evalCtx{cur: st, old: fc.entry, bind: bind}
